@@ -260,45 +260,74 @@ def expected_tests(spec, opts, pyver=None):
     return out
 
 
-def opts_to_argv(opts):
-    argv = []
+SCALAR_KEYS = ('unit', 'non_unit', 'at_level', 'all', 'only_level', 'repeat',
+               'shuffle_seed', 'shuffle', 'stop', 'buffer', 'verbose',
+               'processes', 'color', 'progress')
+
+
+def _opt_groups(opts):
+    """[(key, [argv words])] in the canonical order."""
+    g = []
     for p in opts.get('test') or []:
-        argv += ['-t', p]
+        g.append(('test', ['-t', p]))
     for p in opts.get('module') or []:
-        argv += ['-m', p]
+        g.append(('module', ['-m', p]))
     for p in opts.get('layer') or []:
-        argv += ['--layer', p]
+        g.append(('layer', ['--layer', p]))
     if opts.get('unit'):
-        argv.append('-u')
+        g.append(('unit', ['-u']))
     if opts.get('non_unit'):
-        argv.append('-f')
+        g.append(('non_unit', ['-f']))
     if opts.get('at_level') is not None:
-        argv.append('--at-level=%d' % opts['at_level'])
+        g.append(('at_level', ['--at-level=%d' % opts['at_level']]))
     if opts.get('all'):
-        argv.append('--all')
+        g.append(('all', ['--all']))
     if opts.get('only_level') is not None:
-        argv.append('--only-level=%d' % opts['only_level'])
+        g.append(('only_level', ['--only-level=%d' % opts['only_level']]))
     if opts.get('repeat'):
-        argv += ['--repeat', str(opts['repeat'])]
+        g.append(('repeat', ['--repeat', str(opts['repeat'])]))
     if opts.get('shuffle_seed') is not None:
-        argv += ['--shuffle', '--shuffle-seed=%d' % opts['shuffle_seed']]
+        g.append(('shuffle_seed', ['--shuffle',
+                                   '--shuffle-seed=%d' % opts['shuffle_seed']]))
     elif opts.get('shuffle'):
-        argv.append('--shuffle')
+        g.append(('shuffle', ['--shuffle']))
     if opts.get('stop'):
-        argv.append('-x')
+        g.append(('stop', ['-x']))
     if opts.get('buffer'):
-        argv.append('--buffer')
+        g.append(('buffer', ['--buffer']))
     if opts.get('verbose'):
-        argv.append('-' + 'v' * opts['verbose'])
+        g.append(('verbose', ['-' + 'v' * opts['verbose']]))
     if opts.get('processes'):
-        argv += ['-j', str(opts['processes'])]
+        g.append(('processes', ['-j', str(opts['processes'])]))
     for p in opts.get('package') or []:
-        argv += ['-s', p]
+        g.append(('package', ['-s', p]))
     if opts.get('color'):
-        argv.append('--color')
+        g.append(('color', ['--color']))
     if opts.get('progress'):
-        argv.append('--progress')
-    return argv
+        g.append(('progress', ['--progress']))
+    return g
+
+
+def opts_split(opts):
+    """(defaults, argv) for an option vector.
+
+    opts['_order'] (an int) puts the options on the command line in a
+    shuffled order; opts['_defaults'] (a list of keys out of SCALAR_KEYS)
+    moves those options into the 'defaults' of the script (what a buildout
+    generated bin/test passes) - the command line comes after them."""
+    g = _opt_groups(opts)
+    if opts.get('_order') is not None:
+        import random
+        random.Random(opts['_order']).shuffle(g)
+    dk = set(opts.get('_defaults') or ()) & set(SCALAR_KEYS)
+    defaults = [w for k, ws in g if k in dk for w in ws]
+    argv = [w for k, ws in g if k not in dk for w in ws]
+    return defaults, argv
+
+
+def opts_to_argv(opts):
+    defaults, argv = opts_split(opts)
+    return defaults + argv
 
 
 # outcome events per kind: (failures, errors, skips, counted_as_run_variants)
